@@ -1,6 +1,7 @@
 import Lemmas.NumNeeded
 import Lemmas.NumCheck
 import Lemmas.NumPos
+import Lemmas.NumStmt2
 /-! The resolution stage of the VM on a compiled program IS `Spec.prepare` + `checkBalanceVars` + `initBal`
 (`resolution_stage`), for the WHOLE language; and with it the end-to-end equality of `VM.run` and `Spec.run`
 (on their observations) wherever `execute` is known to follow `evalStmts`. -/
@@ -350,19 +351,48 @@ theorem resolution_stage {P : Script} {prog : Program} (hc : compile P = .ok pro
 
 /-! ### end to end -/
 
-/-- `Execute` of the compiled program follows `evalStmts` from every machine that mirrors `Spec`'s state (what
-`execute_correct` proves for a fragment) -/
+/-- `Execute` of the compiled program follows `evalStmts` from every machine that mirrors `Spec`'s state — metadata
+and printed values up to the way portions are written (what `execute_correct2` proves) -/
 def ExecOK (P : Script) (prog : Program) : Prop :=
   ∀ (E : List (Acct × Asset)) (V : List BVal) (env : VEnv), Ctx prog.resources V env → VPos V →
-    ∀ (A : List Acct), EntOK V prog.needed A E → ∀ (m : Machine) (F : Full), Rel A E m F →
+    ∀ (A : List Acct), EntOK V prog.needed A E → ∀ (m : Machine) (F : Full), RelQ RenderQ A E m F →
       match evalStmts env P.stmts F with
       | .error er => VM.execute prog.instrs V m = .error er
-      | .ok F' => ∃ m', VM.execute prog.instrs V m = .ok m' ∧ Rel A E m' F'
+      | .ok F' => ∃ m', VM.execute prog.instrs V m = .ok m' ∧ RelQ RenderQ A E m' F'
 
-theorem prints_render (l : List Val) : (l.map BVal.ofVal).map (fun v => v.render.getD "") = l.map valToString := by
-  induction l with
+theorem renderTxMeta_of_forall2 {l : List (String × BVal)} {l' : List (String × Val)}
+    (h : List.Forall₂ (fun (x : String × BVal) (y : String × Val) => x.1 = y.1 ∧ RenderQ x.2 y.2) l l') :
+    renderTxMeta l = some (l'.map (fun kv => (kv.1, valToString kv.2))) := by
+  induction h with
   | nil => rfl
-  | cons x xs ih => simp [render_ofVal, ih]
+  | @cons x y l l' hxy _ ih =>
+    obtain ⟨k, w⟩ := x
+    obtain ⟨h1, h2⟩ := hxy
+    simp only at h1 h2
+    subst h1
+    simp only [renderTxMeta, ih, List.map_cons]
+    rw [show w.render = some (valToString y.2) from h2]
+
+theorem renderAcctMeta_of_forall2 {l : List (Acct × String × BVal)} {l' : List (Acct × String × Val)}
+    (h : List.Forall₂ (fun (x : Acct × String × BVal) (y : Acct × String × Val) => x.1 = y.1 ∧ x.2.1 = y.2.1 ∧ RenderQ x.2.2 y.2.2) l l') :
+    renderAcctMeta l = some (l'.map (fun x => (x.1, x.2.1, valToString x.2.2))) := by
+  induction h with
+  | nil => rfl
+  | @cons x y l l' hxy _ ih =>
+    obtain ⟨a, k, w⟩ := x
+    obtain ⟨h1, h2, h3⟩ := hxy
+    simp only at h1 h2 h3
+    subst h1 h2
+    simp only [renderAcctMeta, ih, List.map_cons]
+    rw [show w.render = some (valToString y.2.2) from h3]
+
+theorem prints_of_forall2 {l : List BVal} {l' : List Val} (h : List.Forall₂ RenderQ l l') :
+    l.map (fun v => v.render.getD "") = l'.map valToString := by
+  induction h with
+  | nil => rfl
+  | @cons x y l l' hxy _ ih =>
+    simp only [List.map_cons, ih]
+    rw [show x.render = some (valToString y) from hxy]; rfl
 
 /-- **end to end**: wherever `Execute` follows `evalStmts`, running the compiled program on the VM — resolution
 stage included — gives exactly the observations (or the error class) `Spec.run` gives, and never panics -/
@@ -387,8 +417,8 @@ theorem run_eq_of_exec {P : Script} {prog : Program} (hc : compile P = .ok prog)
     | ok u =>
       rw [hcb] at hrs
       obtain ⟨vars, R, V, B, hv, hr, hb, cx, hvp, hbal, hE, hok⟩ := hrs
-      have hrel : Rel B.accts B.keys ({ balances := B } : VM.Machine) { st := { bal := B.bal, postings := [] } } :=
-        ⟨rfl, rfl, rfl, rfl, rfl, rfl, rfl, hok⟩
+      have hrel : RelQ RenderQ B.accts B.keys ({ balances := B } : VM.Machine) { st := { bal := B.bal, postings := [] } } :=
+        ⟨rfl, rfl, rfl, rfl, List.Forall₂.nil, List.Forall₂.nil, List.Forall₂.nil, hok⟩
       have hx := hex _ V env cx hvp _ hE _ _ hrel
       simp only [← hbal]
       simp only [VM.run, hv, hr, hb]
@@ -399,10 +429,10 @@ theorem run_eq_of_exec {P : Script} {prog : Program} (hc : compile P = .ok prog)
       | ok F =>
         rw [hev] at hx
         obtain ⟨m', hx, hr'⟩ := hx
-        simp only [hx, hr'.txMeta, hr'.acctMeta, renderTxMeta_map, renderAcctMeta_map]
+        simp only [hx, renderTxMeta_of_forall2 hr'.txMeta, renderAcctMeta_of_forall2 hr'.acctMeta]
         split
         · rfl
-        · simp only [Outcome.map, Except.map, Outcome.ofExcept, VM.Result.obs, Result.obs, hr'.postings, hr'.prints, prints_render]
+        · simp only [Outcome.map, Except.map, Outcome.ofExcept, VM.Result.obs, Result.obs, hr'.postings, prints_of_forall2 hr'.prints]
 
 /-- in the fragment, the portion literals that can reach the resource table have positive denominators -/
 theorem Stmt.litsPos_of_frag {s : Stmt} (h : s.frag = true) : s.litsPos = true := by
@@ -449,5 +479,13 @@ theorem vpos_of_resolved {P : Script} {prog : Program} (hc : compile P = .ok pro
       obtain ⟨V, B', h4, _, h5, _⟩ := h3
       rw [hb] at h4; cases h4
       exact h5
+
+theorem frag2_tablePos {P : Script} {prog : Program} (hc : compile P = .ok prog) (hfr : P.frag2) : TablePos prog.resources :=
+  compile_tablePos hc (fun s hs => Stmt.litsPos_of_frag2 (hfr.2 s hs))
+
+/-- **compiled programs do what the source says**, the whole language (`Script.frag2` = its side conditions) -/
+theorem run_eq {P : Script} {prog : Program} (hc : compile P = .ok prog) (hfr : P.frag2) (req : Request) (store : Store) :
+    (VM.run prog req store).map VM.Result.obs = Outcome.ofExcept ((Num.run P req store).map Result.obs) :=
+  run_eq_of_exec hc (frag2_tablePos hc hfr) (fun _ _ _ cx hp _ hE m F hrel => execute_correct2 hc hfr cx hp hE m F hrel) req store
 
 end Num
